@@ -21,6 +21,18 @@ PROPS = {
         "exhaustive_note": "the small-alphabet sender pairs and the receiver token-list pool are enumerated completely; large files are sampled",
         "label": "full on the model; window reads (mapStruct) covered by correspondence only",
     },
+    "C17": {
+        "components": ["mux"],
+        "trusted_base": [KERNEL, EXTRACT, HARNESSTB, GEN,
+                         "modelled, not verified: Go bufio.Reader.Read and io.ReadFull semantics (Model/Mux.v bufio_read/read_full), validated by the unit correspondence; the client's consumers issue reads through io.ReadFull only (checked by reading the code, exercised end to end)"],
+        "assumptions": [
+            "server_frames_wellformed assumes payloads within maxMessageSize; the sender's data writes are bounded by chunkSize (theorem over generated constants), file-list entries and id lists are assumed below 256 KiB",
+            "end-to-end leg: a real server's stream is re-framed by a proxy and fed to a real client in a subprocess; outcome = exit status + destination tree digest",
+        ],
+        "rule": "unit: random sequences of 1..12 frames (data 0..40 bytes and, in 2% of the cases, sizes around maxMessageSize and its half; info, error, unknown-tag, over-limit and low-tag frames; truncated streams) read with random request sizes through the real MultiplexReader + bufio.Reader of the source's size (and of sizes 16..300 to exercise the too-small-buffer panic), compared read by read with the model. end-to-end: 9 adversarial re-framings (1-byte, 3-byte mid-integer, 7-byte with info+empty frames, random, maximum-size and half-maximum+1 coalesced, 1000-info burst) and error frames injected at 8 (quick) / 32 (thorough) stages; non-trivial = more than two reads",
+        "exhaustive": False,
+        "label": "full",
+    },
     "C16": {
         "components": ["edits", "sender"],
         "trusted_base": [KERNEL, EXTRACT, HARNESSTB, GEN, MD4NOTE,
